@@ -113,12 +113,16 @@ def gen(rng, tier, open_keys):
 
 
 def corpus():
-    return ["(set (mk 0 0) (add s0 3) (add s0 1) (sortq s0 lt) (del s0 1) (iter s0) (len s0))",
+    return ["(setexcl (variant again) (n 5))", "(setexcl (variant withlock) (n 4))","(set (mk 0 0) (add s0 3) (add s0 1) (sortq s0 lt) (del s0 1) (iter s0) (len s0))",
             "(set (mk 1 0) (mk 1 0) (add s0 1) (add s0 2) (add s1 2) (add s1 1) (equal s0 s1) (sortm s1 lt) (equal s0 s1))",
             "(set (mk 1 1) (add s0 5) (add s0 2) (add s0 5) (del s0 5) (add s0 5) (iter s0) (json s0))"]
 
 
 def predicate(line, obs, allow_known=False):
+    if line.startswith("(setexcl"):
+        return None if obs == "excl overlapped=0" else (
+            "operations on a synchronized set overlapped: after a second Synchronize()/a refused WithLock() a Len "
+            "completed while a SortQuick was still inside the set (" + str(obs) + ")")
     t = C.parse_sx(line)
     ops = t[1:]
     outs = obs.split(";")
@@ -136,11 +140,15 @@ def predicate(line, obs, allow_known=False):
 
 
 def nontrivial(line, obs):
+    if line.startswith("(setexcl"):
+        return obs is not None
     t = C.parse_sx(line)
     return len(t) > 6 and any(op[0] in ("del", "sortq", "sortm") for op in t[1:])
 
 
 def features(line, obs):
+    if line.startswith("(setexcl"):
+        return ["excl:" + line.split("(variant ")[1].split(")")[0]]
     t = C.parse_sx(line)
     f = []
     for op in t[1:]:
@@ -149,6 +157,8 @@ def features(line, obs):
 
 
 def shrink(line, fails):
+    if line.startswith("(setexcl"):
+        return line
     t = C.parse_sx(line)
     mk = [op for op in t[1:] if op[0] == "mk"]
     rest = [op for op in t[1:] if op[0] != "mk"]
